@@ -6,7 +6,9 @@ objects of the watched namespaces, each once, ordered by namespace and name, wit
 also after Restart; one third of the histories use a filter on a field that never changes, so that every modification
 takes the "projection unchanged" path and the snapshot must still show the new object. The keys of `snapshots` are
 checked for all 512 group / includeSnapshotsFrom topologies of two kubernetes bindings and a schedule binding
-(spec/Snapshot/SnapKeys.tla) through the real loader and HookController.UpdateSnapshots.
+(spec/Snapshot/SnapKeys.tla) through the real loader and HookController.UpdateSnapshots; for grouped topologies one
+execution with three contexts is rendered while the cluster is changed between two reads of the same binding (should
+the per-execution cache ever read twice): every occurrence of a binding's snapshot must be the same list.
 Not covered here: namespace.labelSelector bindings (the fake cluster does not honour label selectors on watches).
 """
 import ast
